@@ -8,4 +8,4 @@ Extraction "../_work/extract/C24/model.ml"
   Z.add Z.mul Z.opp Z.of_N N.add N.mul Z.eqb Z.leb Z.ltb
   dump dump_top parse_at parse load json_eq json_hash obj_set obj_of_list json_assign_scalar
   prim_toString prim_load prim_equal
-  json_same wf in_domain ints_fit reparsed.
+  json_same wf in_domain ints_fit reparsed sci_shape.
